@@ -6,8 +6,10 @@ the property itself as an oracle on the implementation's verdicts."""
 import itertools
 import json
 
+import core
 import env
 import pipeline
+import c05gen as G
 from pipeline import A, R, SPCase
 from core import Exn
 from env import NOW, SP_ID, SP_ACS_POST, SP_ACS_REDIRECT
@@ -45,6 +47,7 @@ FACTORS = [
     ("bind", ["post", "redirect", "redirect-no-endpoint"]),
     ("shape", ["single", "nodata-first", "encrypted", "two-confirmations"]),
 ]
+G_IMPORTS = "Model.Status Model.Response Model.Endpoints"
 OUTSTANDING = {"req-1": "/came-from-1", "req-2": "/came-from-2"}
 
 
@@ -131,6 +134,66 @@ def oracle(ctx, cell, case, spec, got):
                 ctx.oracle_fail("foreign-recipient-accepted:bind=%s" % cell["bind"], "accepted with bearer Recipient %r" % c["recipient"], cell)
 
 
+def oracle_e(ctx, c, case, spec, got):
+    """the property on the verdicts of the per-binding / hidden-confirmation cells (no model involved)"""
+    if not isinstance(got, list):
+        return
+    browser = c["arrive"] in G.BROWSER
+    outs = G.OUT_VARIANTS[c["outs"]]
+    every = spec["assertions"] + spec["encrypted"]
+    if browser and not c["unsol"]:
+        if spec["irt"] not in outs:
+            ctx.oracle_fail("unsolicited-accepted:irt=%s:arrive=%s" % (c["irt"], c["arrive"]),
+                            "response with InResponseTo %r accepted although no such request is outstanding (%r)" % (spec["irt"], sorted(outs)), c)
+        for a in every:
+            for sc in a["confirmations"]:
+                if sc.get("data", True) and sc["irt"] is not None and sc["irt"] != spec["irt"]:
+                    ctx.oracle_fail("confirmation-names-other-request:confs=%s:delivery=%s:irt=%s:scd=%s" % (c["confs"], c["delivery"], c["irt"], c["scd"]),
+                                    "accepted although a bearer confirmation names request %r and the response %r (outstanding %r)"
+                                    % (sc["irt"], spec["irt"], sorted(outs)), c)
+    if browser and spec["destination"] is not None:
+        import re
+        if case.regex is not None:
+            ok = bool(re.search(case.regex, spec["destination"]))
+        else:
+            ok = G.registered_for(c["layout"], c["arrive"], spec["destination"])
+        if not ok:
+            ctx.oracle_fail("destination-not-registered-for-binding:arrive=%s:dest=%s:pattern=%s" % (c["arrive"], c["dest"], c["pattern"]),
+                            "accepted over %s with Destination %r; ACS table %r, pattern %r" % (c["arrive"], spec["destination"], G.LAYOUTS[c["layout"]], case.regex), c)
+    if case.conv_info:
+        for a in every:
+            for sc in a["confirmations"]:
+                if not sc.get("data", True):
+                    continue
+                rc = sc["recipient"]
+                if rc != case.conv_info.get("entity_id") and not G.registered_for(c["layout"], c["arrive"], rc):
+                    ctx.oracle_fail("recipient-not-registered-for-binding:arrive=%s:recip=%s:delivery=%s" % (c["arrive"], c["recip"], c["delivery"]),
+                                    "accepted over %s with bearer Recipient %r; ACS table %r" % (c["arrive"], rc, G.LAYOUTS[c["layout"]]), c)
+
+
+def run_service_urls(ctx):
+    """Base.service_urls / Config.endpoint for every table x every binding vs Model.Endpoints.service_urls"""
+    cases = []
+    for lay in G.LAYOUTS:
+        sp = G.SPCaseE(layout=lay).sp()
+        for bk, b in G.BIND.items():
+            for how in ("service_urls", "config.endpoint"):
+                if how == "service_urls":
+                    got = sp.service_urls(b)
+                else:
+                    got = sp.config.endpoint("assertion_consumer_service", b, "sp") or None
+                impl = None if got is None else [x for x in got if isinstance(x, str)]
+                cases.append(dict(id="%s/%s/%s" % (lay, bk, how), coq="(%s, %s)" % (G.table_coq(lay), core.cstr(b)), impl=impl,
+                                  show=dict(layout=lay, binding=bk, call=how)))
+                ctx.nontriv(("urls", lay, bk))
+                # the statement itself: exactly the urls registered for that binding
+                want = [u for u in G.URL.values() if G.registered_for(lay, bk, u)]
+                if sorted(impl or []) != sorted(want):
+                    ctx.oracle_fail("service-urls-not-those-of-the-binding:binding=%s:layout=%s" % (bk, lay),
+                                    "%s(%s) = %r but the table %r registers %r for it" % (how, bk, got, G.LAYOUTS[lay], want), dict(kind="urls", layout=lay, binding=bk))
+    ctx.correspond("service_urls_per_binding", G_IMPORTS, "show_service_urls", "(list endp * str)", cases)
+
+
 def run(ctx):
     env.tool_inprocess(True)
     cs = cells(ctx)
@@ -150,6 +213,48 @@ def run(ctx):
                 ctx.sample(dict(cell=cell, outcome=got))
     ctx.exhaustive = not ctx.quick
     ctx.correspond("sp_pipeline_addressing", pipeline.IMPORTS, pipeline.MODEL_ACCEPT, pipeline.CTYPE, cases, shard=250)
+
+    # ---- endpoint table quantified per binding; hidden confirmations; on long-lived SP objects
+    run_service_urls(ctx)
+    q = ctx.quick
+    ecells = G.block_destination(q) + G.block_recipient(q) + G.block_solicited(q)
+    ecells += [G.random_cell(ctx.rng) for _ in range(700 if q else 12000)]
+    ctx.rng.shuffle(ecells)          # the SP objects are shared by all cells of one configuration: bindings interleave
+    cases = []
+    with env.Clock(NOW):
+        for n, c in enumerate(ecells):
+            case, spec = G.build(c)
+            xml = pipeline.build_xml(spec)
+            coq, ids = pipeline.case_coq(case, spec, NOW)
+            got = G.call_sp(case.sp(), case, xml, ids)
+            cases.append(dict(id="e%d" % n, coq=coq, impl=G.verdict(got), show=c))
+            ctx.nontriv(tuple(sorted(c.items())))
+            ctx.count("%s:%s" % (c["kind"], "accepted" if isinstance(got, list) else "rejected"))
+            oracle_e(ctx, c, case, spec, got)
+            if n % 1500 == 0:
+                ctx.sample(dict(cell=c, outcome=got))
+    ctx.correspond("sp_addressing_per_binding", G_IMPORTS, "show_accept_e", "(ecfg * response)", cases, shard=250)
+
+    # ---- histories: a FRESH SP object per history, several calls over changing bindings
+    cases = []
+    with env.Clock(NOW):
+        for h in range(60 if q else 1200):
+            hist = G.history(ctx.rng, 6)
+            sp, terms, outs = None, [], []
+            for c in hist:
+                case, spec = G.build(c)
+                if sp is None:
+                    sp = case.fresh_sp()
+                xml = pipeline.build_xml(spec)
+                rc, ids = pipeline.response_coq(spec, case.enc_keys)
+                got = G.call_sp(sp, case, xml, ids)
+                terms.append("(%s, %s, %s)" % (SPCase.coq(case, NOW, spec.get("destination")), core.cstr(G.BIND[c["arrive"]]), rc))
+                outs.append(G.verdict(got))
+                oracle_e(ctx, dict(c, kind="H", position=len(outs) - 1, history=hist[:len(outs)]), case, spec, got)
+            cases.append(dict(id="h%d" % h, coq="(%s, [%s])" % (G.table_coq(hist[0]["layout"]), "; ".join(terms)), impl=outs, show=hist))
+            ctx.nontriv(("history", json.dumps(hist, sort_keys=True)))
+            ctx.count("history:%d-accepted" % sum(isinstance(o, list) for o in outs))
+    ctx.correspond("sp_call_history", G_IMPORTS, "show_calls", "(list endp * list call)", cases, shard=20)
 
 
 def replay(ctx, payload):
